@@ -370,8 +370,6 @@ Theorem subs_time_to_video_offgrid_witness :
 Proof. vm_compute. repeat split; discriminate. Qed.
 
 (** ** MPD: the subtitle timeline mirrors the video timeline *)
-Definition scale_exact (oldTS newTS t : Z) : Z := (2 * t * newTS + oldTS) / (2 * oldTS).
-
 Lemma changeTimelineTimescale_shape oldTS newTS stl :
   map se_r (changeTimelineTimescale oldTS newTS stl) = map se_r stl /\
   map se_d (changeTimelineTimescale oldTS newTS stl) = map (fun s => scale_round oldTS newTS (se_d s)) stl /\
